@@ -36,6 +36,7 @@ import world
 THEOREMS = [
     "C14_derives_everywhere",
     "C14_patch_derives",
+    "C14_patch_derives_survive_default",
     "C14_patch_apply",
     "C14_patch_use_sites",
     "C14_map_type_everywhere",
@@ -133,8 +134,14 @@ class tok_re:
         return None
 
 
-def case_of(doc, settings=None):
-    return {"settings": settings or {}, "steps": [{"op": "root", "doc": doc}]}
+def case_of(doc, settings=None, extra_steps=None):
+    return {"settings": settings or {}, "steps": [{"op": "root", "doc": doc}] + list(extra_steps or [])}
+
+
+# a derive no generated type has by itself (string enums / string newtypes already derive PartialEq, Eq, Hash,
+# Ord ...: a dropped per-type `PartialEq` would be invisible on them).  Not compilable: scan-only stream.
+MARK = "::c14_marker::Marker"
+MARK2 = "::c14_marker::Global"
 
 
 def gen_ok(g):
@@ -827,6 +834,14 @@ def check_syntactic(doc, st, meta, g, base, viol, counts):
             items = {k: dict(v, derives=[d for d in v["derives"] if d != "PartialEq" or k != new])
                      for k, v in items.items()}
         it = items.get(new)
+        ent_new = D.ent(D.named().get(new, -1))
+        if ent_new is not None:
+            counts["patch_target_kind:%s:%s" % (ent_new["kind"] if ent_new["kind"] != "newtype" else
+                                                "newtype-" + ent_new["constraints"]["k"],
+                                                "default" if ent_new.get("default") is not None else "nodefault")] += 1
+        if MUT == "patch-derives-dropped-with-default" and it is not None and ent_new is not None \
+                and ent_new.get("default") is not None and ent_new["kind"] in ("enum", "newtype"):
+            it = dict(it, derives=[d for d in it["derives"] if d not in p.get("derives", [])])
         if it is None:
             # a patch whose target is not generated (e.g. an inline type of a replaced definition)
             # is silently ignored, as documented; the target surviving under its OLD name is not
@@ -1258,13 +1273,42 @@ def add_map_shapes(rnd, doc):
         defs["C14MapFlat"] = flat
 
 
+def add_type_defaults(rnd, doc):
+    """a valid `default` annotation on definitions that become string enums, integer-enum newtypes and
+    constrained-string newtypes (typify records it on the named type: convert_ref_type / id_for_schema)"""
+    if rnd.random() < 0.7:
+        vals = rnd.sample(["red", "green", "blue", "x-y", "UP"], 3)
+        doc["definitions"]["C14EnumDflt"] = {"type": "string", "enum": vals, "default": rnd.choice(vals)}
+        pat = rnd.choice(sorted(schemagen.PAT_SAMPLES))
+        doc["definitions"]["C14StrDflt"] = rnd.choice([
+            {"type": "string", "pattern": pat, "default": schemagen.PAT_SAMPLES[pat][0][0]},
+            {"type": "string", "minLength": 1, "maxLength": 6, "default": "abc"}])
+        doc["definitions"]["C14DfltUser"] = {"type": "object", "properties": {
+            "e": {"$ref": "#/definitions/C14EnumDflt"}, "s": {"$ref": "#/definitions/C14StrDflt"},
+            "list": {"type": "array", "items": {"$ref": "#/definitions/C14EnumDflt"}}}, "required": ["e"]}
+    for n in sorted(doc["definitions"]):
+        s = doc["definitions"][n]
+        if not isinstance(s, dict) or "default" in s or rnd.random() > 0.6:
+            continue
+        t = s.get("type")
+        if t in ("string", "integer") and isinstance(s.get("enum"), list) and s["enum"]:
+            s["default"] = s["enum"][0]
+        elif t == "string" and "pattern" in s and s["pattern"] in schemagen.PAT_SAMPLES and "enum" not in s:
+            s["default"] = schemagen.PAT_SAMPLES[s["pattern"]][0][0]
+        elif t == "string" and ("maxLength" in s or "minLength" in s) and "format" not in s and "enum" not in s:
+            v = "a" * max(s.get("minLength", 0), 1)
+            if len(v) <= s.get("maxLength", 99):
+                s["default"] = v
+
+
 def load_docs(ctx):
     quick = ctx.tier == "quick"
     docs = []
     for p in sorted(glob.glob(os.path.join(CORPUS, "*.json"))):
         c = json.load(open(p))
         docs.append({"src": "corpus:" + os.path.basename(p), "doc": c["doc"], "fixed_settings": c.get("settings"),
-                     "expect": c.get("expect")})
+                     "expect": c.get("expect"), "scan_only": bool(c.get("scan_only")),
+                     "extra_steps": c.get("extra_steps") or []})
     for fx in (FIXTURES_QUICK if quick else FIXTURES_THOROUGH):
         p = os.path.join(FIXTURE_DIR, fx)
         if os.path.exists(p):
@@ -1279,6 +1323,7 @@ def load_docs(ctx):
             if isinstance(s, dict) and rnd.random() < 0.25 and "$ref" not in s:
                 s["description"] = "occurrence at " + pth
         add_map_shapes(rnd, doc)
+        add_type_defaults(rnd, doc)
         dnames = sorted(doc["definitions"])
         for dn in dnames:
             s = doc["definitions"][dn]
@@ -1324,11 +1369,12 @@ def run(ctx):
     docs = load_docs(ctx)
 
     # ---- phase 1: default settings (no code) to learn the names
-    base0 = vlib.run_vh("gen", [dict(case_of(d["doc"]), code=False) for d in docs])
+    base0 = vlib.run_vh("gen", [dict(case_of(d["doc"], None, d.get("extra_steps")), code=False) for d in docs])
     n_sig = 3 if quick else 4
     cases, metas, owner, kinds = [], [], [], []
+    so = []            # scan-only stream: (document index, settings, meta) — never compiled (marker derives)
     for di, (d, g) in enumerate(zip(docs, base0)):
-        cases.append(case_of(d["doc"]))
+        cases.append(case_of(d["doc"], None, d.get("extra_steps")))
         metas.append(None)
         owner.append(di)
         kinds.append("base")
@@ -1339,11 +1385,28 @@ def run(ctx):
             if quick and len(d["doc"].get("definitions", {})) > 50:
                 fixed = fixed[::2]          # large curated documents: every other assignment in the quick tier
             for fs in fixed:
-                cases.append(case_of(d["doc"], fs))
+                if d.get("scan_only"):
+                    so.append((di, fs, meta_from_settings(d["doc"], g, fs)))
+                    continue
+                cases.append(case_of(d["doc"], fs, d.get("extra_steps")))
                 metas.append(meta_from_settings(d["doc"], g, fs))
                 owner.append(di)
                 kinds.append("sigma")
             continue
+        # scan-only: EVERY named type of the document (definitions and inline types, every kind, with and
+        # without a schema default) patched with a marker derive, a third of them renamed too
+        names = Dump(g["dump"]).named()
+        if names:
+            pm = {}
+            for nm in sorted(names):
+                pm[nm] = {"rename": None, "derives": [MARK]}
+                if rnd.random() < 0.3 and nm + "Mk" not in names:
+                    pm[nm]["rename"] = nm + "Mk"
+            st = {"patch": {k: {kk: vv for kk, vv in v.items() if vv} for k, v in pm.items()}}
+            if rnd.random() < 0.5:
+                st["derives"] = [MARK2]
+            so.append((di, st, {"replace": {}, "convert": [], "patch": pm, "derives": st.get("derives", []),
+                                "map_type": MAP_TYPES[0]}))
         forces = [{"replace", "map"}, {"convert", "map", "derives"}, {"patch", "builder"}]
         for k in range(n_sig):
             st, meta = pick_settings(rnd, d["doc"], g, force=forces[k] if k < len(forces) and rnd.random() < 0.5 else None)
@@ -1418,7 +1481,7 @@ def run(ctx):
     for i in sig_ok + [base_idx[o] for o in sorted(base_idx)]:
         st = dict(cases[i]["settings"])
         st["struct_builder"] = not st.get("struct_builder", False)
-        flips.append((i, dict(case_of(docs[owner[i]]["doc"], st), code=False)))
+        flips.append((i, dict(case_of(docs[owner[i]]["doc"], st, docs[owner[i]].get("extra_steps")), code=False)))
     fl_res = vlib.run_vh("gen", [c for _, c in flips]) if flips else []
     bf_bad = []
     for (i, c), r in zip(flips, fl_res):
@@ -1447,7 +1510,7 @@ def run(ctx):
         if '"map"' not in json.dumps([e["kind"] for e in w.gen[base_idx[o]]["dump"]["entries"].values()]):
             continue
         st = {"map_type": INDEXMAP}
-        im_cases.append(dict(case_of(docs[o]["doc"], st), code=False))
+        im_cases.append(dict(case_of(docs[o]["doc"], st, docs[o].get("extra_steps")), code=False))
         im_meta.append((o, st))
     if im_cases:
         for (o, st), r in zip(im_meta, vlib.run_vh("gen", im_cases)):
@@ -1459,6 +1522,24 @@ def run(ctx):
             check_syntactic(docs[o]["doc"], st, meta, r, w.gen[base_idx[o]], viol, counts)
             for v in viol[nv:]:
                 v["src"] = docs[o]["src"]
+
+    # ---- scan-only stream (marker derives on every kind of named type; defaults present / absent)
+    so_gens = []
+    if so:
+        res = vlib.run_vh("gen", [dict(case_of(docs[o]["doc"], st, docs[o].get("extra_steps")), code=False)
+                                  for o, st, _ in so])
+        for (o, st, meta), r in zip(so, res):
+            if not gen_ok(r) or not gen_ok(w.gen[base_idx[o]]):
+                skipped["scan-only-not-generated"] += 1
+                continue
+            counts["scan_only_modules"] += 1
+            nv = len(viol)
+            check_syntactic(docs[o]["doc"], st, meta, r, w.gen[base_idx[o]], viol, counts)
+            for v in viol[nv:]:
+                v["src"] = docs[o]["src"]
+            so_gens.append((st, r))
+            ctx.nontrivial.add(json.dumps([st, docs[o]["src"]], sort_keys=True))
+        ctx.evaluations += counts["scan_only_modules"]
 
     # ---- behavioural obligation on compiled code
     n_inst = 2 if quick else 4
@@ -1565,11 +1646,17 @@ def run(ctx):
         try:
             pick = [i for i in sig_ok if gen_ok(w.gen[i])]
             pick = pick[: (24 if quick else 200)]
-            mv = coq_model_views("c14mv_" + ctx.tier, [w.gen[i] for i in pick])
+            k4 = [(cases[i]["settings"], w.gen[i]) for i in pick] + so_gens[: (16 if quick else 120)]
+            mv = coq_model_views("c14mv_" + ctx.tier, [g for _, g in k4])
             mism = []
             n_items = 0
-            for i, m in zip(pick, mv):
-                sv = scan_settings_view(w.gen[i])
+            for (k4st, k4g), m in zip(k4, mv):
+                sv = scan_settings_view(k4g)
+                if MUT == "patch-derives-dropped-with-default":
+                    for x in sv:
+                        e = [y for y in k4g["dump"]["entries"].values() if y.get("name") == x["name"]]
+                        if e and e[0].get("default") is not None and e[0]["kind"] in ("enum", "newtype"):
+                            x["derives"] = [d for d in x["derives"] if d != MARK]
                 if MUT == "model-map-default" and sv:
                     m = json.loads(json.dumps(m).replace("BTreeMap", "HashMap"))
                 mm = {x["name"]: x for x in m}
@@ -1577,10 +1664,10 @@ def run(ctx):
                     n_items += 1
                     x = mm.get(s["name"])
                     if x is None or x["derives"] != s["derives"] or x["members"] != s["members"]:
-                        mism.append({"settings": cases[i]["settings"], "item": s, "model": x})
+                        mism.append({"settings": k4st, "item": s, "model": x})
             counts["model_items_compared"] = n_items
             ctx.oblige("correspondence K4: Gallina type_ident / skip path / derives_of on the real dump = syn scan "
-                       "(%d items of %d modules)" % (n_items, len(pick)), not mism, json.dumps(mism[:2])[:1500])
+                       "(%d items of %d modules)" % (n_items, len(k4)), not mism, json.dumps(mism[:2])[:1500])
         except Exception as e:  # noqa
             ctx.oblige("model correspondence evaluates", False, str(e)[-1500:])
 
